@@ -14,6 +14,8 @@ pub mod c09;
 pub mod c10;
 pub mod c11;
 pub mod c12;
+pub mod c13;
+pub mod c14;
 pub mod c15;
 pub mod c16;
 pub mod c17;
@@ -35,6 +37,8 @@ pub fn cases(prop: &str, tier: Tier) -> u64 {
         "C10" => c10::cases(tier),
         "C11" => c11::cases(tier),
         "C12" => c12::cases(tier),
+        "C13" => c13::cases(tier),
+        "C14" => c14::cases(tier),
         "C15" => c15::cases(tier),
         "C16" => c16::cases(tier),
         "C17" => c17::cases(tier),
@@ -58,6 +62,8 @@ pub fn run_case(prop: &str, env: &Env, ctx: &mut Ctx, idx: u64) {
         "C10" => c10::run_case(env, ctx, idx),
         "C11" => c11::run_case(env, ctx, idx),
         "C12" => c12::run_case(env, ctx, idx),
+        "C13" => c13::run_case(env, ctx, idx),
+        "C14" => c14::run_case(env, ctx, idx),
         "C15" => c15::run_case(env, ctx, idx),
         "C16" => c16::run_case(env, ctx, idx),
         "C17" => c17::run_case(env, ctx, idx),
